@@ -139,9 +139,9 @@ func VerifyProof(root, key *felt.Felt, proof *ProofNodeSet, hash crypto.HashFn) 
 		case *trienode.ValueNode:
 			return felt.Felt(*cld), nil
 		case *trienode.EdgeNode, *trienode.BinaryNode:
-			if hash, _ := cld.Cache(); hash != nil {
-				expected = felt.Felt(*hash)
-			}
+			// The child is embedded in the (authenticated) parent; its cached hash is still
+			// untrusted proof data, so the next expected hash is recomputed from its content.
+			expected = cld.Hash(hash)
 		}
 	}
 }
